@@ -66,15 +66,20 @@ class cdict(dict):
             if not hasattr(cls, '__bases__'):
                 cls = cls.__class__
 
-            for b in reversed(cls.__bases__):
+            # the closest ancestor wins: a plain mixin among the bases must
+            # not answer with what's there for ``object`` when another base
+            # has an entry of its own.
+            for b in getattr(cls, '__mro__', ())[1:]:
                 try:
-                    retval = self[b]
-                    # this is why a cdict instance must never be modified after
-                    # the first lookup
-                    self[cls] = retval
-                    return retval
+                    retval = dict.__getitem__(self, b)
                 except KeyError:
-                    pass
+                    continue
+
+                # this is why a cdict instance must never be modified after
+                # the first lookup
+                self[cls] = retval
+                return retval
+
             raise e
 
     def get(self, k, d=None):
